@@ -9,7 +9,7 @@ EXPLANATION = (
     "still receives its end callback (C02 oracle); flush(True) never raises; flush always returns."
 )
 ASSUMPTIONS = ["bounds: <= 4 tasks, <= 2 flushes"]
-BUDGET = {"quick": 150, "thorough": 2400}
+BUDGET = {"quick": 150, "thorough": 900}
 MON = ["C13", "C02"]
 
 
